@@ -684,6 +684,18 @@ func (x *Exec) bitop(st *State, op token.Token, a, b *Term, rt types.Type, w int
 	}
 	// uninterpreted with bounds
 	r := App("bit."+op.String()+fmt.Sprint(w), IntS, a, b)
+	if (op == token.OR || op == token.XOR) && !signed {
+		// x | c with a constant c: exact (x + c) whenever x lies below the lowest set bit of c
+		v, c := a, b
+		if v.IsConst() {
+			v, c = b, a
+		}
+		if c.IsConst() && c.C.Sign() > 0 {
+			if tz := int(c.C.TrailingZeroBits()); tz > 0 {
+				st.assume(Implies(And(Le(IntC(0), v), Lt(v, BigC(Pow2(tz)))), Eq(r, Add(v, c))))
+			}
+		}
+	}
 	st.assume(rangeFact(r, rt))
 	if !signed {
 		switch op {
